@@ -105,10 +105,42 @@ K['vf_cseq_l'] = ([OS, FR('on', 'ids') + ' && __CPROVER_is_fresh(st, 12)'], OWS(
 K['vf_ceseq_r'] = ([OS, FR('on', 'ids') + ' && __CPROVER_is_fresh(fail, 4)'], OWS('on', 'ids') + ['*fail'], ['__CPROVER_return_value == ' + ALLH, ALLIDS, 'VF_IMP(!%s, *fail == %s)' % (ALLH, FF), NOCOPY, NORM],
                    'either::sequence on an rvalue container: successes and the first failure are moved, never copied')
 
+# ---- fixed-arity containers: array / tuple / record combinators (fix.cpp)
+F = {}
+def _fx(f, ids, nout, nst, ens_extra, what, ret=None):
+    req = [ID(*ids), '__CPROVER_is_fresh(out, %d)' % (4 * nout)] if nout else [ID(*ids)]
+    asg = ['__CPROVER_object_whole(out)'] if nout else []
+    if nst:
+        req.append('__CPROVER_is_fresh(st, %d)' % (4 * nst)); asg.append('__CPROVER_object_whole(st)')
+    F[f] = (req, asg, ens_extra + [NORM], what)
+OUT = lambda *ids: ' && '.join('out[%d] == %s' % (k, i) for k, i in enumerate(ids))
+ST0 = lambda n: ' && '.join('st[%d] == 0' % k for k in range(n))
+_fx('vf_aappend_rr', ('a0', 'a1', 'b0'), 3, 0, [OUT('a0', 'a1', 'b0'), NOCOPY], 'array::append(rvalue, rvalue): every element moved into its place, none copied')
+_fx('vf_aappend_rl', ('a0', 'a1', 'b0'), 3, 1, [OUT('a0', 'a1', 'b0'), ST0(1), NEVER(('a0', 'a1'))], 'array::append(rvalue, lvalue): the lvalue array is intact, the rvalue elements are never copied')
+_fx('vf_ajoin_r', ('a0', 'a1', 'b0', 'c0'), 4, 0, [OUT('a0', 'a1', 'b0', 'c0'), NOCOPY], 'array::join of three rvalue arrays: all elements in order, none copied')
+_fx('vf_ajoin_mixed', ('a0', 'a1', 'b0', 'c0'), 4, 1, [OUT('a0', 'a1', 'b0', 'c0'), ST0(1), NEVER(('a0', 'a1', 'c0'))], 'array::join(rvalue, lvalue, rvalue): the lvalue array is intact, the rvalue elements are never copied')
+_fx('vf_apush_rr', ('a0', 'a1', 'b0'), 3, 0, [OUT('a0', 'a1', 'b0'), NOCOPY], 'array::push_back(rvalue array, rvalue element): moved, never copied')
+F['vf_afrom_r'] = (['n <= 3 && ' + ID('a0', 'a1', 'a2'), '__CPROVER_is_fresh(out, 8)'], ['__CPROVER_object_whole(out)'], ['__CPROVER_return_value == (n == 2)', 'VF_IMP(n == 2, out[0] == a0 && out[1] == a1)', NOCOPY, NORM], 'array::from_range<2> on an rvalue range of symbolic size: a value exactly for size 2, elements moved, never copied')
+F['vf_afrom_l'] = (['n <= 3 && ' + ID('a0', 'a1', 'a2'), '__CPROVER_is_fresh(out, 8) && __CPROVER_is_fresh(st, 12)'], ['__CPROVER_object_whole(out)', '__CPROVER_object_whole(st)'], ['__CPROVER_return_value == (n == 2)', 'VF_IMP(n == 2, out[0] == a0 && out[1] == a1)', ST0(3), NORM], 'array::from_range<2> on an lvalue range: the source is intact')
+_fx('vf_aapply_r', ('a0', 'a1', 'b0', 'b1'), 2, 0, [OUT('a0', 'a1'), NOCOPY], 'array::apply (binary) on rvalue arrays: elements moved into the function, never copied')
+_fx('vf_tpush_rr', ('a0', 'a1', 'b0'), 3, 0, [OUT('a0', 'a1', 'b0'), NOCOPY], 'tuple::push_back(rvalue, rvalue): moved, never copied')
+_fx('vf_tpush_ll', ('a0', 'a1', 'b0'), 3, 3, [OUT('a0', 'a1', 'b0'), ST0(3)], 'tuple::push_back(lvalue, lvalue): tuple and new element intact')
+_fx('vf_tconcat_rr', ('a0', 'a1', 'b0'), 3, 0, [OUT('a0', 'a1', 'b0'), NOCOPY], 'tuple::concat of rvalue tuples: moved, never copied')
+_fx('vf_tfrom_array_r', ('a0', 'a1'), 2, 0, [OUT('a0', 'a1'), NOCOPY], 'tuple::from_array on an rvalue array: moved, never copied')
+_fx('vf_tfrom_array_l', ('a0', 'a1'), 2, 2, [OUT('a0', 'a1'), ST0(2)], 'tuple::from_array on an lvalue array: source intact')
+_fx('vf_tinvoke_r', ('a0', 'a1'), 0, 0, ['__CPROVER_return_value == a0 * 8 + a1', NOCOPY], 'tuple::invoke on an rvalue tuple: the elements are handed to the function by move, in order')
+_fx('vf_rpermute_r', ('a0', 'b0'), 2, 0, [OUT('a0', 'b0'), NOCOPY], 'record::permute on an rvalue record: every element moved to its label, never copied')
+_fx('vf_rpermute_l', ('a0', 'b0'), 2, 2, [OUT('a0', 'b0'), ST0(2)], 'record::permute on an lvalue record: source intact')
+_fx('vf_rmul_rr', ('a0', 'b0', 'c0'), 3, 0, [OUT('a0', 'b0', 'c0'), NOCOPY], 'record::multiply_disjoint(rvalue, rvalue): moved, never copied')
+_fx('vf_rmul_ll', ('a0', 'b0', 'c0'), 3, 3, [OUT('a0', 'b0', 'c0'), ST0(3)], 'record::multiply_disjoint(lvalue, lvalue): both records intact')
+_fx('vf_rmul_rl', ('a0', 'b0', 'c0'), 3, 1, [OUT('a0', 'b0', 'c0'), ST0(1), NEVER(('a0', 'b0'))], 'record::multiply_disjoint(rvalue, lvalue): the lvalue record is intact, the rvalue elements are never copied')
+_fx('vf_rmul_lr', ('a0', 'b0', 'c0'), 3, 2, [OUT('a0', 'b0', 'c0'), ST0(2), NEVER(('c0',))], 'record::multiply_disjoint(lvalue, rvalue): the lvalue record is intact, the rvalue element is never copied')
+_fx('vf_rmap_r', ('a0', 'b0'), 2, 0, [OUT('a0', 'b0'), NOCOPY], 'record::map on an rvalue record: elements moved into the function, never copied')
+
 def make(tier):
     P = Plan('C05', level='proof', design_ref='DESIGN.md section 5 C05')
     P.not_decided += ['the same algorithms on heap containers (std::vector steals the buffer on move; the contracts here are checked on a fixed-capacity container of the instrumented type): algorithm::fold_break / map_optional / reverse, container::pop_front / make_move_range, grid::map / apply / resize (std::vector of a non-trivial element: 20 GB exhausted, experiments/C05_grid_trk), tree::map, options / parse constructors',
-                      'record::permute / multiply_disjoint / map, array::join / from_range, tuple::push_back (not built)']
+                      'array::append / join / push_back with an lvalue first array, tuple::concat with an lvalue tuple and record::map on an lvalue record do not compile on the pinned tree (the trait is applied to the reference type) - only the forms that compile are under contract; container::get_or_insert (std::map)']
     P.meta += ['the element type records copies, moves and reads of moved-from objects in ghost counters per element id; by parametricity the contracts carry over to every element type, in particular move-only ones (a copy would not compile there)']
     spec = ''
     for f, (req, asg, ens, what) in C.items():
@@ -125,6 +157,14 @@ def make(tier):
     for f, (req, asg, ens, what) in K.items():
         uk.contract(f, cls='W', unwind=10, backends=['sat', 'cvc5'], what=what, native=False, timeout=900,
                     bound='fixed-capacity container (capacity 4) with symbolic size <= 3 (join: 2 + 2): every loop is bounded by the capacity, unwinding assertions on; complete for this container type')
+    fspec = ''
+    for f, (req, asg, ens, what) in F.items():
+        fspec += 'function %s\n' % f + ''.join('  __CPROVER_requires(%s)\n' % r for r in req if r) + '  __CPROVER_assigns(%s)\n' % ', '.join(asg + [G]) + ''.join('  __CPROVER_ensures(%s)\n' % e for e in ens)
+    P.generated['c05f.spec'] = fspec
+    uf = P.unit('fix', 'fix.cpp', specs=['c05f.spec'], harness=['harness.c'], pre=['ghost.h'], inline=True)
+    for f, (req, asg, ens, what) in F.items():
+        uf.contract(f, cls='W' if f.startswith('vf_afrom') else 'P', unwind=10 if f.startswith('vf_afrom') else None, backends=['sat', 'cvc5'], what=what, native=False, timeout=600,
+                    bound='source range of capacity 3 with symbolic size' if f.startswith('vf_afrom') else '')
     # ---- tree of instrumented values (std::list nodes; lemma jobs without --dfcc as in C09)
     NOC = '  __CPROVER_assert(c_copy == m_copy, "no value is copied");\n  __CPROVER_assert(c_readmoved == m_readmoved, "no read of a moved-from value");\n  VF_PROBE(); }\n'
     ht = ('void h_tree_trk_build(void){ VF_IN(u32, a); VF_IN(u32, b); VF_IN(u32, c); __CPROVER_assume(a < 7 && b < 7 && c < 7 && a != b && a != c && b != c); u32 bad = vf_tree_trk_build(a, b, c);\n'
